@@ -29,6 +29,7 @@ pub struct SpeedLimitTrainSimTag;
 pub struct SetSpeedTrainSimTag;
 pub struct StrapTag;
 pub struct TrainConfigTag;
+pub struct EstTimesTag;
 
 pub fn f(v: &Value) -> f64 {
     v.as_f64().unwrap_or(f64::NAN)
@@ -317,6 +318,7 @@ pub fn dispatch(line: &str) -> String {
         _ if f0.starts_with("PathTpc::") => <PathTpcTag as FileEntry>::call(&req),
         "W_UpdateRes" => <StrapTag as FileEntry>::call(&req),
         "SetSpeedTrainSim" => <SetSpeedTrainSimTag as FileEntry>::call(&req),
+        "W_EstScenario" | "Vec<EstTime>" | "Vec<est_times::EstTime>" => <EstTimesTag as FileEntry>::call(&req),
         "TrainState" => <TrainStateTag as FileEntry>::call(&req),
         "BrakingPoints" | "W_Recalc" => <BrakingPointTag as FileEntry>::call(&req),
         "TrainSimBuilder" => <TrainConfigTag as FileEntry>::call(&req),
